@@ -31,6 +31,8 @@ pub(crate) struct Exp {
     pub image: Vec<u8>,
     /// an echo reply may legitimately be dropped as a whole
     pub optional: bool,
+    /// IP destination (the peer, or the second neighbour B for replies to B)
+    pub dst: [u8; 4],
     // --- progress
     pub key: Option<Key>,
     /// merged, sorted (start, end) byte ranges of the IP payload seen on the wire
@@ -41,7 +43,11 @@ pub(crate) struct Exp {
 }
 impl Exp {
     pub fn new(kind: Kind, label: String, proto: u8, image: Vec<u8>, optional: bool) -> Exp {
-        Exp { kind, label, proto, image, optional, key: None, cov: vec![], frags: vec![], corrupt: false, clobbered_by: None }
+        Exp { kind, label, proto, image, optional, dst: PEER_IP, key: None, cov: vec![], frags: vec![], corrupt: false, clobbered_by: None }
+    }
+    pub fn to(mut self, dst: [u8; 4]) -> Exp {
+        self.dst = dst;
+        self
     }
     pub fn complete(&self) -> bool {
         self.cov.len() == 1 && self.cov[0] == (0, self.image.len())
@@ -69,7 +75,7 @@ impl Exp {
     /// Lenient: for UDP a zero checksum field ("no checksum", legal over IPv4) is accepted too.
     fn matches(&self, f: &Frag) -> bool {
         let (a, b) = (f.off, f.off + f.payload.len());
-        if b > self.image.len() || f.mf != (b < self.image.len()) {
+        if f.key.1 != self.dst || b > self.image.len() || f.mf != (b < self.image.len()) {
             return false;
         }
         if f.payload[..] == self.image[a..b] {
@@ -162,9 +168,22 @@ impl Tracker {
         if !f.hdr_cksum_ok {
             out.push(Viol::new("C12/tx/header-checksum/bad", format!("IPv4 header checksum wrong: {}", describe(&f))));
         }
-        if f.key.0 != OUR_IP || f.key.1 != PEER_IP {
+        if f.key.0 != OUR_IP || mac_of(f.key.1).is_none() {
             out.push(Viol::new("C12/tx/identical/addresses", format!("unexpected addresses: {}", describe(&f))));
             return;
+        }
+        // Link layer (Ethernet): every IPv4 frame, first fragment or later one, must be addressed
+        // to the hardware address of the neighbour that owns its IP destination (both neighbours
+        // are on-link and pre-resolved, so the next hop IS the destination). A fragment that
+        // leaves towards another station is lost for the receiver of the datagram although the
+        // IP packet itself is flawless.
+        if let (Some(got), Some(want)) = (f.eth_dst, mac_of(f.key.1)) {
+            if got != want {
+                out.push(Viol::new(
+                    "C12/tx/lost/fragment-sent-to-wrong-hardware-address",
+                    format!("{}: the IP destination is owned by {:02x?}; {}", describe(&f), want, if f.mf || f.off != 0 { "this fragment never reaches the station that reassembles the datagram" } else { "this datagram never reaches its destination" }),
+                ));
+            }
         }
         if (f.mf || f.off != 0) && f.df {
             out.push(Viol::new("C12/tx/mf-flag/df-set-on-fragment", describe(&f)));
@@ -185,7 +204,7 @@ impl Tracker {
                 }
                 None => {
                     // same length as an outstanding datagram of this protocol => corrupted copy of it
-                    let near = self.exps.iter().position(|e| e.key.is_none() && e.proto == f.key.2 && e.image.len() == b);
+                    let near = self.exps.iter().position(|e| e.key.is_none() && e.proto == f.key.2 && e.dst == f.key.1 && e.image.len() == b);
                     match near {
                         Some(ei) => {
                             let e = &mut self.exps[ei];
@@ -240,7 +259,7 @@ impl Tracker {
         let cand = self.exps.iter().position(|e| e.key.is_none() && e.proto == f.key.2 && e.matches(&f));
         let (ei, exact) = match cand {
             Some(i) => (i, true),
-            None => match self.exps.iter().position(|e| e.key.is_none() && e.proto == f.key.2) {
+            None => match self.exps.iter().position(|e| e.key.is_none() && e.proto == f.key.2 && e.dst == f.key.1) {
                 Some(i) => (i, false),
                 None => {
                     out.push(Viol::new(
@@ -351,6 +370,13 @@ pub(crate) enum Step {
     /// configuration pseudo-step, only as the first step: the interface's IPv4 identification
     /// counter starts at this value (instead of wherever the default seed puts it)
     IdStart(u16),
+    /// inbound echo request (ICMP length) from the second neighbour B (10.0.0.3 / 02:..:03);
+    /// the reply goes to B
+    EchoB(usize),
+    /// configuration pseudo-step: the NEXT datagram step is followed by exactly this many polls
+    /// instead of polling to quiescence, so that its remaining fragments are still pending in
+    /// the stack when the step after it happens
+    Hold(u16),
 }
 impl Step {
     fn to_json(self) -> Value {
@@ -359,6 +385,8 @@ impl Step {
             Step::Raw(n) => json!(["raw", n]),
             Step::Echo(n) => json!(["echo", n]),
             Step::IdStart(v) => json!(["id-start", v]),
+            Step::EchoB(n) => json!(["echo-b", n]),
+            Step::Hold(k) => json!(["hold", k]),
         }
     }
     fn from_json(v: &Value) -> Option<Step> {
@@ -368,6 +396,8 @@ impl Step {
             "raw" => Some(Step::Raw(n)),
             "echo" => Some(Step::Echo(n)),
             "id-start" => Some(Step::IdStart(n as u16)),
+            "echo-b" => Some(Step::EchoB(n)),
+            "hold" => Some(Step::Hold(n as u16)),
             _ => None,
         }
     }
@@ -375,8 +405,8 @@ impl Step {
     fn ip_len(self) -> usize {
         match self {
             Step::Udp(n) => 28 + n,
-            Step::Raw(n) | Step::Echo(n) => 20 + n,
-            Step::IdStart(_) => 0,
+            Step::Raw(n) | Step::Echo(n) | Step::EchoB(n) => 20 + n,
+            Step::IdStart(_) | Step::Hold(_) => 0,
         }
     }
 }
@@ -411,6 +441,22 @@ pub(crate) fn run_scenario(eth: bool, ip_mtu: usize, steps: &[Step]) -> Scenario
     let mut tr = Tracker::new(eth, net.dev_mtu());
     let fragbuf = smoltcp::config::FRAGMENTATION_BUFFER_SIZE;
     let mut outcomes = vec![];
+    let mut hold: Option<u16> = None;
+    // poll until poll_at is None and nothing more comes out
+    fn settle(net: &mut Net, tr: &mut Tracker, viols: &mut Vec<Viol>) -> bool {
+        for _ in 0..400 {
+            net.poll();
+            let fr = net.dev.take_tx();
+            let got = !fr.is_empty();
+            for (_, f) in fr {
+                tr.feed(&f, viols);
+            }
+            if !got && net.dev.rx.is_empty() && net.poll_at_is_none() {
+                return true;
+            }
+        }
+        false
+    }
     for (si, st) in steps.iter().enumerate() {
         let salt = 1 + si as u32;
         let must_fit = st.ip_len() <= ip_mtu || st.ip_len() <= fragbuf;
@@ -419,6 +465,16 @@ pub(crate) fn run_scenario(eth: bool, ip_mtu: usize, steps: &[Step]) -> Scenario
             Step::IdStart(_) => {
                 outcomes.push("config");
                 continue;
+            }
+            Step::Hold(k) => {
+                hold = Some(k);
+                outcomes.push("config");
+                continue;
+            }
+            Step::EchoB(n) => {
+                let data = pattern(n - 8, salt);
+                let img = net.inject_echo_request_from(PEER_B_IP, PEER_B_MAC, 0x7000 + si as u16, 0x4242, si as u16, &data);
+                tr.expect(Exp::new(Kind::Reply, format!("#{} echo reply to B icmp len {}", si, n), PROTO_ICMP, img, true).to(PEER_B_IP))
             }
             Step::Udp(n) => {
                 let p = pattern(n, salt);
@@ -448,30 +504,30 @@ pub(crate) fn run_scenario(eth: bool, ip_mtu: usize, steps: &[Step]) -> Scenario
             // lenient: either nothing on the wire or (however it manages) the complete datagram
             tr.exps[ei].optional = true;
         }
-        // poll until poll_at is None and nothing more comes out
-        let mut quiet = false;
-        for _ in 0..400 {
-            net.poll();
-            let fr = net.dev.take_tx();
-            let got = !fr.is_empty();
-            for (_, f) in fr {
-                tr.feed(&f, &mut viols);
+        let held = hold.take();
+        match held {
+            Some(k) => {
+                // exactly k polls: whatever the stack has not sent by then stays pending
+                for _ in 0..k {
+                    net.poll();
+                    for (_, f) in net.dev.take_tx() {
+                        tr.feed(&f, &mut viols);
+                    }
+                }
             }
-            if !got && net.dev.rx.is_empty() && net.poll_at_is_none() {
-                quiet = true;
-                break;
+            None => {
+                if !settle(&mut net, &mut tr, &mut viols) {
+                    // not C12's business (C13), but the completeness verdict below would be unfounded
+                    tr.machinery.push(format!("no quiescence after 400 polls in step {:?}", st));
+                }
             }
-        }
-        if !quiet {
-            // not C12's business (C13), but the completeness verdict below would be unfounded
-            tr.machinery.push(format!("no quiescence after 400 polls in step {:?}", st));
         }
         let e = &tr.exps[ei];
         outcomes.push(if !accepted {
             "refused-by-send"
         } else if e.started() {
             "on-wire"
-        } else if matches!(st, Step::Echo(_)) {
+        } else if matches!(st, Step::Echo(_) | Step::EchoB(_)) {
             "reply-absent"
         } else {
             "dropped-whole"
@@ -479,13 +535,17 @@ pub(crate) fn run_scenario(eth: bool, ip_mtu: usize, steps: &[Step]) -> Scenario
         if !accepted && e.started() {
             viols.push(Viol::new("C12/tx/once/refused-datagram-on-wire", format!("{}: send() returned an error but the datagram was transmitted", e.label)));
         }
-        if !must_fit && e.started() && !e.complete() && !e.corrupt {
+        if held.is_none() && !must_fit && e.started() && !e.complete() && !e.corrupt {
             viols.push(Viol::new(
                 "C12/tx/oversize/partial-on-wire",
                 format!("{}: {} bytes exceed MTU {} and the {}-byte fragmentation buffer, yet part of it ({:?}) was transmitted", e.label, st.ip_len(), ip_mtu, fragbuf, e.cov),
             ));
             tr.exps[ei].corrupt = true; // do not report the same thing as tail-never-transmitted
         }
+    }
+    // final quiescence (a no-op unless the last datagram step was held)
+    if !settle(&mut net, &mut tr, &mut viols) {
+        tr.machinery.push("no quiescence after 400 polls at the end of the scenario".into());
     }
     tr.finish(&mut viols);
     let udp_zero = tr
@@ -702,6 +762,51 @@ pub(crate) fn run_s1c(rep: &mut Report, tier: Tier) {
         json!({"what": "three datagrams one after the other on an interface whose IPv4 identification counter starts just below its wrap-around (Config::random_seed chosen by inverting the PCG32, start value verified through the verif_digest hook); every (src,dst,protocol,id) may name one datagram only",
             "domain": {"media": ["ip", "ethernet"], "ip_mtu": mtu, "id_start": starts, "kinds": ["udp", "raw", "echo"], "ip_payload_lengths": lens},
             "triples": cases.len(), "frames_checked": frames, "polls": polls, "outcomes_per_datagram": outcomes}),
+    );
+}
+
+/// S1d: an ingress-triggered reply arrives while fragments of a socket datagram are still
+/// pending in the stack. D1 (udp / raw, >= 3 fragments, to the peer) is followed by exactly 1 or 2
+/// polls, then an echo request arrives from the peer or from the second neighbour B (reply
+/// unfragmented, 2 or 3 fragments), then everything is polled to quiescence. D1 must be complete,
+/// byte-identical and -- on Ethernet -- every one of its fragments addressed to the peer's
+/// hardware address; the reply is absent as a whole or complete and addressed to its requester.
+pub(crate) fn run_s1d(rep: &mut Report, tier: Tier) {
+    let mtu = 100usize;
+    let d1: Vec<usize> = match tier {
+        Tier::Quick => vec![208, 400],
+        Tier::Thorough => vec![161, 208, 400, 808, 1480],
+    };
+    let echo: Vec<usize> = match tier {
+        Tier::Quick => vec![18, 108, 208],
+        Tier::Thorough => vec![18, 80, 81, 108, 208, 400],
+    };
+    let mut cases = vec![];
+    for eth in [false, true] {
+        for k1 in 0..2u8 {
+            for &l1 in &d1 {
+                for polls in 1..=2u16 {
+                    for from_b in [false, true] {
+                        for &l2 in &echo {
+                            let first = if k1 == 0 { Step::Udp(l1 - 8) } else { Step::Raw(l1) };
+                            let second = if from_b { Step::EchoB(l2) } else { Step::Echo(l2) };
+                            cases.push((eth, mtu, vec![Step::Hold(polls), first, second]));
+                        }
+                    }
+                }
+            }
+        }
+    }
+    let (outcomes, frames, polls, _) = sweep(rep, "s1d", &cases);
+    rep.add_count("states", cases.len() as u64);
+    rep.add_count("transitions", cases.len() as u64);
+    rep.add_count("evaluations", cases.len() as u64);
+    rep.add_count("real_code_steps", polls);
+    rep.cov(
+        "s1d",
+        json!({"what": "socket datagram D1 to the peer (>= 3 fragments) polled exactly 1 or 2 times, then an inbound echo request from the peer or from a second pre-resolved neighbour B (10.0.0.3), then polled to quiescence; on Ethernet the link-layer destination of every frame must be the hardware address of the neighbour owning its IP destination",
+            "domain": {"media": ["ip", "ethernet"], "ip_mtu": mtu, "d1_kinds": ["udp", "raw"], "d1_ip_payload_lengths": d1, "polls_before_request": [1, 2], "requester": ["peer", "B"], "echo_icmp_lengths": echo},
+            "cases": cases.len(), "frames_checked": frames, "polls": polls, "outcomes_per_datagram": outcomes}),
     );
 }
 
